@@ -17,6 +17,9 @@ PAIRS = [("remove_modifier", "without_modifier"), ("remove_obsolete", "without_o
 
 def run(ck, prog, ctx):
     ck.rule("SIBLING", "two implementations of one operation delegate or have equal kernels (DESIGN 3.15)")
+    ck.rule("ERR", "every call of a crate function returning Result<_, HpoError> in src/set.rs propagates the error, panics on it, or is a listed documented exception; none replaces it by a default")
+    from engines import check_error_discipline
+    check_error_discipline(ck, "ERR", prog, r"^src/set\.rs$", allowed=[], floor=0)
     ck.rule("SELECT", "polarity of a filter predicate (DESIGN 3.10)")
     ck.rule("FIELD", "which field is consulted (DESIGN 3.9)")
     ck.rule("KIND", "single-kind bodies (DESIGN 3.3 K1)")
